@@ -1136,6 +1136,10 @@ item_fill_job(const struct item *it, IMB_JOB *job)
         }
         if (it->cipher == IMB_CIPHER_CBCS_1_9)
                 job->cipher_fields.CBCS.next_iv = it->next_iv;
+        if (it->cipher == IMB_CIPHER_CUSTOM)
+                job->cipher_func = imbv_custom_cipher;
+        if (it->hash == IMB_AUTH_CUSTOM)
+                job->hash_func = imbv_custom_hash;
 }
 
 /* ------------------------------------------------------------------ reference: ciphers */
@@ -1388,11 +1392,41 @@ cipher_ref(struct item *it, const uint8_t *in, uint8_t *out)
         case IMB_CIPHER_SNOW_V:
                 ref_snowv(it->k.ckey, it->iv, in, out, len);
                 break;
+        case IMB_CIPHER_CUSTOM:
+                for (size_t i = 0; i < len; i++)
+                        out[i] = in[i] ^ 0xA5;
+                break;
         default:
                 it->have_ref = 0;
                 if (out != in)
                         memmove(out, in, len);
         }
+}
+
+/* custom callbacks used as dispatch probes (C06) */
+int g_custom_trace[8];
+int g_custom_ntrace;
+int
+imbv_custom_cipher(IMB_JOB *job)
+{
+        const uint8_t *in = job->src + job->cipher_start_src_offset_in_bytes;
+        if (g_custom_ntrace < 8)
+                g_custom_trace[g_custom_ntrace++] = 1;
+        for (uint64_t i = 0; i < job->msg_len_to_cipher_in_bytes; i++)
+                job->dst[i] = in[i] ^ 0xA5;
+        return 0;
+}
+int
+imbv_custom_hash(IMB_JOB *job)
+{
+        const uint8_t *in = job->src + job->hash_start_src_offset_in_bytes;
+        uint32_t sum = 0x12345678;
+        if (g_custom_ntrace < 8)
+                g_custom_trace[g_custom_ntrace++] = 2;
+        for (uint64_t i = 0; i < job->msg_len_to_hash_in_bytes; i++)
+                sum = sum * 31 + in[i];
+        memcpy(job->auth_tag_output, &sum, job->auth_tag_output_len_in_bytes > 4 ? 4 : job->auth_tag_output_len_in_bytes);
+        return 0;
 }
 
 /* ------------------------------------------------------------------ reference: hashes */
@@ -1516,6 +1550,13 @@ hash_ref(struct item *it, const uint8_t *msg, uint8_t *tag)
         case IMB_AUTH_KASUMI_UIA1:
                 ref_kasumi_f9(it->k.akey, msg, len, full);
                 break;
+        case IMB_AUTH_CUSTOM: {
+                uint32_t sum = 0x12345678;
+                for (size_t i = 0; i < len; i++)
+                        sum = sum * 31 + msg[i];
+                memcpy(full, &sum, 4);
+                break;
+        }
         default: {
                 const struct ref_crc_params *p = crc_params(it->hash);
                 if (p) {
